@@ -1,3 +1,84 @@
-From DI Require Import PyStr Copyright.
-Theorem C11_placeholder : True. Proof. exact I. Qed.
-Print Assumptions C11_placeholder.
+(* C11 - Building a copyright object loses no content and invents none.
+   Words are those of str.split(); a lone full stop (the blank-line marker of continuation
+   lines) is not counted, exactly as in the property's executable statement.  The words of the
+   input are, per source line, those after the colon of a declaration line and those of the
+   whole line otherwise. *)
+From Coq Require Import String.
+From Coq Require Import NArith List Bool Permutation.
+From DI Require Import Result PyStr Codec Deb822 Debcon Copyright CopyrightFacts Dep5Facts WordFacts ConserveFacts.
+Import ListNotations.
+Open Scope N_scope.
+
+(* for EVERY text the object is built, and the words of all values of its dictionary form are a
+   rearrangement of the words of the input: nothing lost, nothing invented, whichever recovery
+   path applies *)
+Theorem C11_conservation : forall t, exists ps, from_text t = Ok ps /\
+  Permutation (cwp ps) (flat_map line_cw (text_lines t)).
+Proof. intros t. destruct (from_text_total t) as (ps & E). exists ps. split; [exact E|now apply from_text_words]. Qed.
+Print Assumptions C11_conservation.
+
+(* the stages *)
+Theorem C11_lines_to_groups : forall lines cur gs, groups_loop lines cur = Ok gs ->
+  gw gs = sw cur ++ flat_map (fun l => line_cw (ln_val l)) lines.
+Proof. exact groups_loop_words. Qed.
+Print Assumptions C11_lines_to_groups.
+
+(* all fields kept, duplicates renamed not dropped: the stored values are exactly the field texts *)
+Theorem C11_renaming_keeps_values : forall t ae fs b b', binv t ae b -> add_fields t ae b fs = Ok b' ->
+  binv t ae b' /\ Permutation (vals b') (map fvalue (live fs) ++ vals b).
+Proof. exact add_fields_inv. Qed.
+Print Assumptions C11_renaming_keeps_values.
+
+Theorem C11_paragraph : forall t fs p, from_fields t fs = Ok p ->
+  Permutation (cw (pvals p)) (cw (map field_text fs)) /\ wfp p.
+Proof. exact from_fields_words. Qed.
+Print Assumptions C11_paragraph.
+
+(* every typed field renders the words it was given *)
+Theorem C11_converters : forall c raw, cwords (fval_dumps (convert c raw)) = cwords raw.
+Proof. exact cwords_convert_dumps. Qed.
+Print Assumptions C11_converters.
+
+(* merge keeps every value of every merged paragraph, in order *)
+Theorem C11_merge : forall run, cw (pvals (merge_run run)) = cwp run.
+Proof. exact merge_run_words. Qed.
+Print Assumptions C11_merge.
+
+(* fold moves the unknown text into the license text *)
+Theorem C11_fold : forall p1 p2, wfp p1 -> foldable p1 p2 = true ->
+  cw (pvals (fold_pair p1 p2)) = cw (pvals p1) ++ cw (pvals p2).
+Proof. exact fold_pair_words. Qed.
+Print Assumptions C11_fold.
+
+Theorem C11_groups_to_dictionary : forall gs ps, from_groups gs = Ok ps ->
+  Permutation (cwp ps) (flat_map (fun g => cw (map field_text g)) gs).
+Proof. exact from_groups_words. Qed.
+Print Assumptions C11_groups_to_dictionary.
+
+(* a text that takes all three recovery paths *)
+Local Open Scope string_scope.
+Example C11_recovery_paths :
+  let t := lit "Format: f
+Comment: one
+Comment: two  words
+
+junk line
+more junk . here
+
+trailing junk
+
+License:
+
+free text folded
+
+Files: *
+X-Extra: kept
+" in
+  match from_text t with
+  | Ok ps =>
+      map p_type ps = [PHeader; PCatchAll; PLicense; PFiles] /\
+      cwp ps = map lit ["f"; "one"; "two"; "words"; "junk"; "line"; "more"; "junk"; "here"; "trailing"; "junk";
+                        "free"; "text"; "folded"; "*"; "kept"]
+  | _ => False
+  end.
+Proof. vm_compute. split; reflexivity. Qed.
